@@ -73,7 +73,7 @@ def do_confirm(name):
         m["demo_with_change_exit"] = r1.returncode
         m["demo_with_change_out"] = (r1.stdout + r1.stderr)[-400:]
         m["demo_without_exit"] = r0.returncode
-        rt = sh("timeout 900 %s -m pytest -q -p no:cacheprovider tests 2>&1 | tail -3" % PY, cwd=wt, env=env)
+        rt = sh("timeout 900 %s -m pytest -q -rf -p no:cacheprovider tests 2>&1 | tail -8" % PY, cwd=wt, env=env)
         out = rt.stdout
         ok = " passed" in out and "failed" not in out
         if not ok and "test_nxscope_channels_thread" in out and out.count("FAILED") <= 1:
